@@ -26,8 +26,11 @@
  *   G hi lo b [*]              ONE vbi_dvb_mux_cor call on the pending frame with a b byte buffer (with *: repeated until
  *                              the frame is used up), one line per call -> {"a":"cpart","b":b,"out":[bytes],"ok":..,"left":sliced_left}
  *                              the frame stays pending until left = 0 or a call failed; without a pending frame G prints nothing
- * Watchdog: a command that does not return within 20 s ends the process with exit code 95 after printing
- * {"a":"watchdog"}.
+ * Watchdog: a command that does not return within 20 s (wall clock) or uses more than 10 s of CPU time (ITIMER_PROF;
+ * independent of the load of the machine) ends the process with exit code 95 after printing {"a":"watchdog"}.
+ * A call that never returns may call the callback for ever: only the first MAX_REC frames of one call are printed
+ * (no valid call delivers that many); a coroutine call that returns no lines and consumes nothing although input is
+ * left is repeated (that is what every caller does) but printed only the first 3 times in a row.
  */
 #include <stdio.h>
 #include <stdlib.h>
@@ -35,6 +38,7 @@
 #include <ctype.h>
 #include <signal.h>
 #include <unistd.h>
+#include <sys/time.h>
 #include "config.h"
 #include "src/dvb_demux.c"
 #include "src/dvb_mux.h"
@@ -67,6 +71,7 @@ static unsigned paylen(unsigned id)
 	return 2;
 }
 
+#define MAX_REC 20000
 static int nframes;
 static void put_frame(const vbi_sliced *s, unsigned n, int64_t pts)
 {
@@ -84,7 +89,8 @@ static void put_frame(const vbi_sliced *s, unsigned n, int64_t pts)
 static vbi_bool demux_cb(vbi_dvb_demux *d, void *ud, const vbi_sliced *s, unsigned n, int64_t pts)
 {
 	(void) d; (void) ud;
-	put_frame(s, n, pts);
+	if (nframes < MAX_REC)
+		put_frame(s, n, pts);
 	return TRUE;
 }
 
@@ -183,10 +189,13 @@ int main(void)
 	static char line[1 << 20];
 	setvbuf(stdout, NULL, _IOFBF, 1 << 18);
 	signal(SIGALRM, on_alarm);
+	signal(SIGPROF, on_alarm);
 	init_raw(132, 720);
 	while (fgets(line, sizeof line, stdin)) {
 		char *p = line + 1;
+		struct itimerval cpu = { { 0, 0 }, { 10, 0 } };
 		alarm(20);
+		setitimer(ITIMER_PROF, &cpu, NULL);
 		switch (line[0]) {
 		case 'R':
 			if (dx) vbi_dvb_demux_delete(dx);
@@ -248,7 +257,7 @@ int main(void)
 			break;
 		case 'C':
 			while (dx) {
-				unsigned n, left, first = 1;
+				unsigned n, left, first = 1, stall = 0;
 				uint8_t *b;
 				const uint8_t *bp;
 				char *e;
@@ -263,6 +272,8 @@ int main(void)
 					int64_t pts = -1;
 					unsigned before = left, r;
 					r = vbi_dvb_demux_cor(dx, sl, dx_maxl, &pts, &bp, &left);
+					stall = (0 == r && before == left) ? stall + 1 : 0;
+					if (stall > 3) continue;	/* no lines, nothing consumed, input left: until the watchdog */
 					nframes = 0;
 					out("{\"a\":\"cor\",\"n\":%u,\"d\":[", first ? n : 0);
 					if (r > 0) put_frame(sl, r, pts);
